@@ -126,7 +126,11 @@ def extract(config, release=False, repo=None, quiet=True, _retry=0):
         if os.path.exists(fpath):
             meta["cached"] = True
         elif os.path.exists(epath):
-            raise ExtractError(config, "configuration %s does not compile" % config, open(epath).read())
+            try:
+                log_ = open(epath).read()
+            except OSError:
+                log_ = ""
+            raise ExtractError(config, "configuration %s does not compile" % config, log_)
         else:
             target = os.path.join(CACHE, "target-%s" % config)
             # cargo freshness trap: force the workspace member through the wrapper again
@@ -169,8 +173,17 @@ def extract(config, release=False, repo=None, quiet=True, _retry=0):
 
 
 def _prune(fdir, keep):
-    files = sorted(glob.glob(os.path.join(fdir, "*.json")) + glob.glob(os.path.join(fdir, "*.err")), key=os.path.getmtime)
+    try:
+        files = sorted(glob.glob(os.path.join(fdir, "*.json")) + glob.glob(os.path.join(fdir, "*.err")), key=os.path.getmtime)
+    except OSError:
+        return
+    now = time.time()
     for p in files[:-keep]:
+        try:
+            if now - os.path.getmtime(p) < 900:
+                continue            # recent: another run may be about to read it
+        except OSError:
+            continue
         try:
             os.remove(p)
         except OSError:
